@@ -34,7 +34,7 @@ ASSUMPTIONS = [
     "documented errors = the exception classes of pyoak.legacy.error; an operation that raises anything else gives no verdict (counted)",
     "operations expected to be rejected that are accepted give no verdict (counted) and join the history",
 ]
-MUST_SEE = ["visitor_reused_after_rejection", "wrapper_reusing_own_child", "replace_with_own_child", "adopted_children_checked", "runtime_only_child_field_transform", "rule_replaces_children_of_its_copy", "receiver_below_falsy_parent", 
+MUST_SEE = ["falsy_replacement_with_parent", "visitor_reused_after_rejection", "wrapper_reusing_own_child", "replace_with_own_child", "adopted_children_checked", "runtime_only_child_field_transform", "rule_replaces_children_of_its_copy", "receiver_below_falsy_parent", 
     "rejected_ASTNodeDuplicateChildrenError", "rejected_ASTNodeParentCollisionError", "rejected_ASTNodeIDCollisionError", "rejected_ASTNodeRegistryCollisionError",
     "rejected_ASTNodeReplaceError", "rejected_ASTNodeReplaceWithError", "rejected_ASTTransformError", "failing_element_not_first", "frames_compared", "nested_failing_element", "two_collided_children",
 ]
@@ -108,8 +108,8 @@ def run_shard(ctx):
             kind = rng.choices(
                 ["dup_seq", "dup_two_fields", "parent_collision", "parent_collision_nested", "id_collision", "attach_collision", "attach_collision_nested",
                  "replace_keys", "replace_dup", "replace_parent_collision", "rw_has_parent", "rw_wrong_class", "rw_none_required", "rw_attach_fails",
-                 "transform_raises", "transform_removes_required", "transformer_raises", "rw_clone_of_attached", "parent_collision_two", "transform_runtime_children", "rw_own_child", "rw_wrapper_reuses_child", "transform_reused_visitor"],
-                [3, 3, 1, 1, 3, 3, 1, 3, 1, 1, 3, 3, 3, 1, 3, 3, 3, 2, 2, 2 if f"{P}Seq" in U.cls else 0, 2, 2, 2],
+                 "transform_raises", "transform_removes_required", "transformer_raises", "rw_clone_of_attached", "parent_collision_two", "transform_runtime_children", "rw_own_child", "rw_wrapper_reuses_child", "transform_reused_visitor", "rw_falsy_with_parent"],
+                [3, 3, 1, 1, 3, 3, 1, 3, 1, 1, 3, 3, 3, 1, 3, 3, 3, 2, 2, 2 if f"{P}Seq" in U.cls else 0, 2, 2, 2, 2],
             )[0]
             where = rng.choice(["first", "middle", "last"])
             if kind == "dup_seq":
@@ -223,6 +223,15 @@ def run_shard(ctx):
                 x = attached_with_parent()
                 if x is None or x is n:
                     return None
+                return ("replace_with", "first", n, [x], lambda: n.replace_with(x))
+            if kind == "rw_falsy_with_parent":
+                # the replacement already has a parent - and is falsy in a boolean context (a block without statements)
+                x = U.cls[f"{P}Block"](header=leaf() if rng.random() < 0.5 else None, origin=NO)
+                owner = U.cls[f"{P}List"](items=(leaf(), x), origin=NO)
+                n = U.cls[f"{P}Un"](child=leaf(), origin=NO)
+                top = U.cls[f"{P}List"](items=(n,), origin=NO) if rng.random() < 0.7 else None
+                F.add(owner, n, top)
+                ctx.count("falsy_replacement_with_parent")
                 return ("replace_with", "first", n, [x], lambda: n.replace_with(x))
             if kind == "transform_reused_visitor":
                 # one visitor object, used again after a transform of its was rejected; its rule for list holders edits the
